@@ -96,6 +96,13 @@ T_Carrier == /\ IsEv("carrier") /\ NoPanic /\ UNCHANGED devs
                 /\ [compose |-> e.compose, canon |-> e.canon, len |-> e.len, labels |-> e.labels,
                     rrsig_labels |-> e.rrsig_labels, is_root |-> e.is_root,
                     hash_ok |-> e.hash_ok, issues |-> e.issues] = NameObs(Denote(e.c))
+T_RCarrier == /\ IsEv("rcarrier") /\ NoPanic /\ UNCHANGED devs
+              /\ LET e == Rec[l] IN
+                 /\ WfRelTop(e.c)
+                 /\ RelCarrierLaw(e.c)
+                 /\ [compose |-> e.compose, canon |-> e.canon, len |-> e.len, labels |-> e.labels,
+                     is_empty |-> e.is_empty, with_root |-> e.with_root, issues |-> e.issues]
+                      = RelObs(RelLabels(e.c))
 T_CPair == /\ IsEv("cpair") /\ NoPanic /\ UNCHANGED devs
            /\ LET e == Rec[l] IN
               /\ WfAbs(e.a) /\ WfAbs(e.b)
@@ -110,11 +117,12 @@ T_Crdata ==
          x == MnemonicOf(e.rtype)
          ra == ParseRd(x, e.a)
          rb == ParseRd(x, e.b)
-     IN /\ ra.ok /\ rb.ok                        \* the recorder only carries what the layout reads
-        /\ Carries(x, ra.val, e.cs)
-        /\ CarriedRdLawM(x, ra.val, e.cs, {})
-        /\ Matches(CrdObs(e, RdEqFree(x, ra.val, rb.val)),
-                   CrdExp(x, ra.val, rb.val), CrdDev(x, ra.val, rb.val))
+     IN IF ~ra.ok \/ ~rb.ok
+        THEN (ra.ok \/ ~ra.hard) /\ (rb.ok \/ ~rb.hard)      \* as in T_Rdata: not judged
+        ELSE /\ Carries(x, ra.val, e.cs)
+             /\ CarriedRdLawM(x, ra.val, e.cs, {})
+             /\ Matches(CrdObs(e, RdEqFree(x, ra.val, rb.val)),     \* == not pinned there
+                        CrdExp(x, ra.val, rb.val), CrdDev(x, ra.val, rb.val))
 T_Crecord ==
   /\ IsEv("crecord") /\ NoPanic /\ UNCHANGED devs
   /\ LET e == Rec[l]
@@ -129,7 +137,7 @@ T_Crecord ==
            IN o = CrecExp(r, s)
 
 TNext == T_Devs \/ T_Label \/ T_Name \/ T_CharStr \/ T_Rdata \/ T_Record
-           \/ T_Carrier \/ T_CPair \/ T_Crdata \/ T_Crecord
+           \/ T_Carrier \/ T_RCarrier \/ T_CPair \/ T_Crdata \/ T_Crecord
 TSpec == TInit /\ [][TNext]_tvars
 
 Accepted ==
